@@ -43,7 +43,7 @@ ASSUMPTIONS = [
 ]
 REACH = {t: ["versions_11", "nv3_present", "nv3_absent", "link_keys_written", "children_written", "hashed_present",
              "hashed_absent", "tc_address_unknown", "eui64_rewritten", "eui64_not_writable", "start_blank",
-             "start_existing", "several_restores_on_one_ncp", "restore_again_for_the_restored_address", "frame_counter_checked", "children_checked", "security_state_decoded",
+             "start_existing", "several_restores_on_one_ncp", "restore_again_for_the_restored_address", "read_modify_write_restore", "frame_counter_checked", "children_checked", "security_state_decoded",
              "link_key_refused_midway", "zero_frame_counter_over_existing_network", "boundary_key_values",
              "start_existing_with_link_keys_and_children_of_its_own"]
          for t in ("quick", "thorough")}
@@ -90,6 +90,7 @@ def run_shard(desc) -> Acc:
             return
         app, ncp, net = ap.app, ap.ncp, ap.net
         case0, existing0 = case, existing
+        prev = {}  # what the previous round trip on this application read back (for read-modify-write restores)
 
         async def round_trip(rep):
             # the address the NCP has once a restored (NV3) address is wiped: what a write starts from
@@ -135,6 +136,18 @@ def run_shard(desc) -> Acc:
                      nwk_key=nwk_key, nwk_seq=rnd.choice([0, 255, rnd.randrange(256)]),
                      nwk_fc=rnd.choice([0, 0, 1, 0xFFFFFFFF, rnd.getrandbits(32), rnd.getrandbits(32)]),
                      tc_fc=rnd.choice([0, rnd.getrandbits(32)]))
+            rmw = bool(prev) and rnd.random() < 0.5
+            if rmw:
+                # read - modify - write: the caller changes one setting in what the application itself read back a
+                # moment ago and restores that; the objects handed in share their containers (key table, children,
+                # addresses) with the application's own state
+                net.refuse_partners.clear()
+                refused = None
+                w = dict(prev["w"], channel=rnd.randrange(11, 27))
+                nwk_key, link_keys, children, child_addr = prev["nwk_key"], list(prev["link_keys"]), list(prev["child_addr"]), dict(prev["child_addr"])
+                hashed, node_ieee, tc_key, tc_unknown = prev["hashed"], prev["node_ieee"], prev["tc_key"], False
+                same_ieee = node_ieee == cur_eui
+                acc.hit("read_modify_write_restore")
             ni = zigpy.state.NetworkInfo(
                 extended_pan_id=zt.ExtendedPanId.deserialize(w["ext"])[0], pan_id=zt.PanId(w["pan_id"]),
                 nwk_update_id=zt.uint8_t(w["update_id"]), nwk_manager_id=zt.NWK(0x0000), channel=zt.uint8_t(w["channel"]),
@@ -145,6 +158,10 @@ def run_shard(desc) -> Acc:
                 children=[E(c) for c in children], nwk_addresses={E(c): zt.NWK(a) for c, a in child_addr.items()},
                 stack_specific={"ezsp": {"hashed_tclk": hashed}} if hashed else {}, source="rtmon")
             no = zigpy.state.NodeInfo(nwk=zt.NWK(0x0000), ieee=E(node_ieee), logical_type=zdo_t.LogicalType.Coordinator)
+            if rmw:
+                ni = app.state.network_info.replace(channel=zt.uint8_t(w["channel"]))
+                no = app.state.node_info
+                case["read_modify_write"] = True
             case["written"] = {k: (v.hex() if isinstance(v, bytes) else v) for k, v in w.items()}
             case["written"].update(link_keys=[(k.hex(), p.hex()) for k, p in link_keys], refused_partner=refused.hex() if refused else None, children=[c.hex() for c in children],
                                    child_addr={c.hex(): a for c, a in child_addr.items()}, hashed=hashed, node_ieee=node_ieee.hex(),
@@ -262,13 +279,18 @@ def run_shard(desc) -> Acc:
                     acc.hit("security_state_decoded")
             for key, msg in bad[:4]:
                 acc.violation(key, msg, case, [(r_[1], r_[5]) for r_ in ncp.requests[n0:]][:80])
-            acc.nontrivial((V, nv3, it, rep, w["pan_id"], nwk_key))
+            prev.clear()
+            if not bad:
+                prev.update(w=dict(w, nwk_fc=int(r.network_key.tx_counter), tc_fc=int(r.tc_link_key.tx_counter)), nwk_key=nwk_key,
+                            link_keys=[(k_, p_) for k_, p_ in link_keys if p_ != refused], child_addr=dict(child_addr) if V >= 9 else {},
+                            hashed=(rh if V > 4 else None), node_ieee=exp_ieee, tc_key=tc_key)
+            acc.nontrivial((V, nv3, it, rep, w["pan_id"], nwk_key, rmw))
             if len(acc.samples) < 1:
                 acc.sample({"case": case, "commands_seen_by_ncp": [r_[1] for r_ in ncp.requests[n0:]][:70]})
 
             return True
 
-        for rep in range(1 + (it % 3 == 0) + (it % 6 == 0)):
+        for rep in range(1 + (it % 3 == 0) + (it % 6 == 0) + (it % 2 == 1)):
             if not await round_trip(rep):
                 break
             if rep:
